@@ -9,3 +9,8 @@ open TruthModel.C07
 #print axioms labels_with_referrers_survive
 #print axioms interrupts_not_captured
 #print axioms desugar_postprocess_partial
+#print axioms postprocess_resolved
+#print axioms C07_sound_partial
+#print axioms nobreak_necessary
+#print axioms nonneg_time_necessary
+#print axioms C07_full_false
